@@ -197,8 +197,13 @@ static void grad_case (long idx, vf_rng *r)
                                     ((thi + 4 < st.s[0].x && thi + 4 < 0) || (tlo - 4 >= st.s[st.n - 1].x && tlo - 4 > 65536)) && fabsl (tlo) < 9e17L && fabsl (thi) < 9e17L;
                 if (constant_zone) { double o[4]; colour_at (&st, (int64_t)tlo, o); for (int c = 0; c < 4; c++) lo[c] = hi[c] = o[c]; vf_count ("pixels_far_outside_stop_range", 1); }   /* PAD colour / transparent, whatever |t| is */
                 else {
-                    if (fabsl (tlo) > 16 * 65536.0L || fabsl (thi) > 16 * 65536.0L || thi - tlo > 200) { nskip++; npx--; continue; }
-                    colour_hull (&st, (int64_t)floorl (tlo) - 4, (int64_t)ceill (thi) + 4, lo, hi);
+                    if (fabsl (tlo) > 16 * 65536.0L || fabsl (thi) > 16 * 65536.0L || thi - tlo > 200) {
+                        /* many repetitions out, or t known only loosely: for a repeating gradient the pixel must still lie in the hull of one whole period
+                         * (in particular: opaque stops give an opaque pixel) */
+                        if (st.repeat == PIXMAN_REPEAT_NORMAL || st.repeat == PIXMAN_REPEAT_REFLECT) { colour_hull (&st, -4, 65536 + 4, lo, hi); vf_count ("pixels_judged_against_a_whole_period", 1); }
+                        else { nskip++; npx--; continue; }
+                    }
+                    else colour_hull (&st, (int64_t)floorl (tlo) - 4, (int64_t)ceill (thi) + 4, lo, hi);
                 }
             }
             double got[4];
